@@ -223,3 +223,25 @@ Proof. exact plain_ttx_to_srt. Qed.
 Print Assumptions C07_ttx_to_srt.
 Example C07_ttx_plain_example : ttx_plain_ok ex_plain_ttx /\ srt_plain_ok (ptrunc 1000000 ex_plain_ttx) /\ length ex_plain_ttx = 3%nat.
 Proof. split; [exact ex_plain_ttx_ok | split; [exact ex_plain_ttx_srt_ok | reflexivity]]. Qed.
+
+(* ---- styled sources into SubRip (Proofs/ConvToSrtStyled.v) ----
+   The SubRip writer looks at times, run texts and the SRT attributes only; no STL, TTML or SSA reading path sets those
+   (propagateSTLAttributes, propagateTTMLAttributes set WebVTT settings; propagateSSAAttributes is empty).  For styled
+   sources of these formats the library's conversion into SubRip is therefore the conversion through the plain view --
+   byte comparison on styled generated sources: groups plain.styled.stl->srt (STL files with in-row style changes, colours,
+   boxing, justification, positions; harness/conv_stl_srt.go), plain.styled.ttml->srt, plain.styled.ssa->srt -- and for
+   EVERY document the source reader accepts whose text SubRip can carry, the destination reads back as the source's cues in
+   order, times truncated to the millisecond, the same text per line. *)
+From Astisub Require Import Proofs.ConvToSrtStyled.
+Theorem C07_stl_to_srt_styled : forall data p, stl_dec data = Ok p -> srt_plain_ok p ->
+  exists dst, convert_plain stl_dec srt_enc data = Ok dst /\ srt_dec dst = Ok (ptrunc 1000000 p).
+Proof. exact stl_to_srt_styled. Qed.
+Print Assumptions C07_stl_to_srt_styled.
+Theorem C07_ttml_to_srt_styled : forall data p, ttml_dec2 data = Ok p -> srt_plain_ok p ->
+  exists dst, convert_plain ttml_dec2 srt_enc data = Ok dst /\ srt_dec dst = Ok (ptrunc 1000000 p).
+Proof. exact ttml_to_srt_styled. Qed.
+Print Assumptions C07_ttml_to_srt_styled.
+Theorem C07_ssa_to_srt_styled : forall data p, ssa_dec data = Ok p -> srt_plain_ok p ->
+  exists dst, convert_plain ssa_dec srt_enc data = Ok dst /\ srt_dec dst = Ok (ptrunc 1000000 p).
+Proof. exact ssa_to_srt_styled. Qed.
+Print Assumptions C07_ssa_to_srt_styled.
